@@ -24,6 +24,13 @@ def gen_cases(tier, seed):
     for k in DUMPERS:
         for _ in range(25 if q else 600):
             cases.append(" ".join(c03.one(rng, k, B="B*").split()))
+    # action frames whose accumulated detail reaches the one-octet limit (253, 254, 255 bytes, in one piece and in several)
+    for kind in ("action", "action_noack"):
+        for total in (253, 254, 255):
+            for pieces in ((total,), (100, 100, total - 200), (1,) * 3 + (total - 3,)):
+                a = "%s %s %s" % (c03.rmac(rng), c03.rmac(rng), c03.rmac(rng))
+                ds = " ".join("D:" + hx([rng.randrange(256) for _ in range(L)]) for L in pieces)
+                cases.append("gen %s %s %d - - - - - - %s B*" % (kind, a, rng.randrange(256), ds))
     n_sweeps = len(cases)
     # encodings of 65536 bytes and more (a length that no longer fits 16 bits): 256..258 maximal elements appended;
     # every buffer below is shorter than the encoding, so each dump must refuse and write nothing
